@@ -136,6 +136,42 @@ def intakeAll : List Content → Res (List Info)
       | .err => .err
       | .ok is => .ok (i :: is)
 
+/-! ### the sources the property quantifies over (frozen description of a RIFF/WAVE file) -/
+
+/-- a RIFF chunk: 4-byte tag, u32 length, body (no padding is inserted: the property speaks of even-sized chunks) -/
+structure Chunk where
+  tag : Bytes
+  body : Bytes
+  deriving Repr
+
+def Chunk.enc (k : Chunk) : Bytes := k.tag ++ encU32 k.body.length ++ k.body
+def encChunks (ks : List Chunk) : Bytes := ks.flatMap Chunk.enc
+
+/-- `RIFF size WAVE [pre]* 'fmt ' [mid]* 'data' tail`: the 16 format bytes, whatever else the `fmt ` chunk carries
+    (`cbSize`, extension), other chunks before and between, and anything at all after the audio data -/
+structure Desc where
+  pre : List Chunk
+  fmt16 : Bytes
+  fmtExtra : Bytes
+  mid : List Chunk
+  data : Bytes
+  tail : Bytes
+  deriving Repr
+
+def Desc.fmtChunk (d : Desc) : Chunk := ⟨tagFmt, d.fmt16 ++ d.fmtExtra⟩
+def Desc.dataChunk (d : Desc) : Chunk := ⟨tagData, d.data⟩
+def Desc.body (d : Desc) : Bytes :=
+  encChunks d.pre ++ (d.fmtChunk.enc ++ (encChunks d.mid ++ (d.dataChunk.enc ++ d.tail)))
+def Desc.enc (d : Desc) : Bytes := tagRIFF ++ encU32 (4 + d.body.length) ++ tagWAVE ++ d.body
+
+/-- other chunks are not called `fmt ` (before the format) or `data` (before the audio data); every length fits
+    its field -/
+def Desc.Valid (d : Desc) : Prop :=
+  d.fmt16.length = 16 ∧
+  (∀ k ∈ d.pre, k.tag.length = 4 ∧ k.tag ≠ tagFmt ∧ k.tag ≠ tagData) ∧
+  (∀ k ∈ d.mid, k.tag.length = 4 ∧ k.tag ≠ tagData) ∧
+  d.enc.length < W32
+
 end Wave
 
 namespace Clm
